@@ -28,7 +28,7 @@ def cSummary (b : Compose.Session) (r : String) : String :=
   let s := b.st
   if b.noGame then s!"{cStatus s} nogame r={r}" else
   let last := match s.wire.getLast? with | some c => fmtWire c | none => "-"
-  s!"{cStatus s} n={s.b.positions.length} m={s.b.moves.length} h={s.b.p.hashOf.toNat} w={s.wire.length}:{last} in={cIn s} c={s.calls.length} r={r}"
+  s!"{cStatus s} n={s.b.positions.length} m={s.b.moves.length} h={s.b.p.hashOf.toNat} w={s.wire.length}:{last} in={cIn s} c={s.entered} r={r}"
 
 def cFull (b : Compose.Session) : String :=
   let s := b.st
@@ -40,7 +40,7 @@ def cFull (b : Compose.Session) : String :=
     | none => "-"
     | some (_, r) =>
       s!"bp={r.blackPlaceX},{r.blackPlaceY};wp={r.whitePlaceX},{r.whitePlaceY};bt={r.blackTmpX},{r.blackTmpY};wt={r.whiteTmpX},{r.whiteTmpY}"
-  s!"{cStatus s} result={res} pos={joinSemi ps} moves={joinSemi ms} p={s.b.p.hashOf.toNat} times={s.b.mine},{s.b.theirs} wire={joinSemi (s.wire.map fmtWire)} in={cIn s} c={s.calls.length} notes={notes}"
+  s!"{cStatus s} result={res} pos={joinSemi ps} moves={joinSemi ms} p={s.b.p.hashOf.toNat} times={s.b.mine},{s.b.theirs} wire={joinSemi (s.wire.map fmtWire)} in={cIn s} c={s.entered} notes={notes}"
 
 def handleCompose : Handler := fun st op args =>
   match op, args with
